@@ -156,6 +156,11 @@ func (acl *ACL) RegisterConnection(conn *net.Conn) {
 }
 
 func (acl *ACL) SetUser(cmd []string) error {
+	// A key or channel pattern that does not compile is refused before anything is changed.
+	if err := ValidateRules(cmd); err != nil {
+		return err
+	}
+
 	acl.LockUsers()
 	defer acl.UnlockUsers()
 
